@@ -99,13 +99,21 @@ Definition tsv_dom (g : agraph) : bool := forallb triple_ok g.
 
     A reader consumes the lines a line reader delivers.  It is
     line-compositional when reading a concatenation is the concatenation of
-    the readings (triples, counters, first exception), a line is looked at
-    through [strip()] only, and a blank line yields no triple. *)
+    the readings (triples, counters, first exception) and a line is looked at
+    through [strip()] only.  It is blank-silent when a blank line yields no
+    triple (it may count as a discarded line). *)
 Record line_compositional (read : list str -> rd) : Prop := {
+  lc_nil : read [] = inl res_nil;
   lc_app : forall a b, read (a ++ b) = rd_app (read a) (read b);
-  lc_strip : forall l l', strip l = strip l' -> read [l] = read [l'];
-  lc_blank : forall l, strip l = [] -> exists n, read [l] = inl (Res [] 0 n)
+  lc_strip : forall l l', strip l = strip l' -> read [l] = read [l']
 }.
+
+Definition blank_silent (read : list str -> rd) : Prop :=
+  forall l, strip l = [] -> exists n, read [l] = inl (Res [] 0 n).
+
+(** either the reader is blank-silent or the document has no blank line *)
+Definition blanks_harmless (read : list str -> rd) (ls : list str) : Prop :=
+  blank_silent read \/ Forall (fun l => nonblank l = true) ls.
 
 (** lines a text file can hold verbatim on every line reader: no line feed or
     carriage return inside, valid UTF-8 *)
